@@ -450,7 +450,7 @@ def expected_value(tbl, kind, default, envs, cli):
         if v is None or v == "":
             continue
         if kind in MULTI:
-            pieces = [p.strip(" \t\n\v\f\r") for p in v.split(",")]
+            pieces = [core.go_trim_space(p) for p in v.split(",")]
             ps = [parse_elem(tbl, elem, p) for p in pieces]
             if all(ok for ok, _ in ps):
                 return [c for _, c in ps]
@@ -477,6 +477,9 @@ def value_cases(ctx):
             envvals += [valid[0] + ",," + valid[1], valid[0] + "," + valid[1] + ",", ","]
             # elements padded with blanks other than the space
             envvals += [valid[0] + ",\t" + valid[1] + "\t", "\r\n" + valid[1] + " ,\v" + valid[0] + "\f"]
+            # ... and with the non-ASCII blanks of Go's unicode.IsSpace (UTF-8 bytes); a lone 0xA0 byte is not a blank
+            envvals += [valid[0] + ",\xc2\xa0" + valid[1] + "\xe2\x80\x83", "\xe3\x80\x80" + valid[1] + "\xc2\x85," + valid[0],
+                        valid[0] + ",\xa0" + valid[1]]
         for isopt in (True, False):
             for default in DEFAULTS[kind]:
                 for nenv in range(0, ctx.scale(3, 4)):
@@ -488,7 +491,7 @@ def value_cases(ctx):
                             cli = [rng.choice(valid) for _ in range(ncli)]
                             names = ["VE%d" % i for i in range(nenv)]
                             # the names of an EnvVar list are separated by any white space
-                            sep = rng.choice([" ", " ", " ", "\t", "\n", "  ", " \t "])
+                            sep = rng.choice([" ", " ", " ", "\t", "\n", "  ", " \t ", "\xc2\xa0", "\xe2\x80\xa8"])
                             d = (gen.mkopt if isopt else gen.mkarg)(kind, "x val" if isopt else "ARG", env=sep.join(names),
                                                                      sbu=True, ptr=rng.random() < 0.5, **{"def": list(default)})
                             if isopt:
@@ -522,7 +525,7 @@ def is_k1(c, tbl):
         return False
     elem = ELEM[kind]
     for v in nonempty:
-        pieces = [p.strip(" \t\n\v\f\r") for p in v.split(",")]
+        pieces = [core.go_trim_space(p) for p in v.split(",")]
         if all(parse_elem(tbl, elem, p)[0] for p in pieces):
             return False
     return True
@@ -538,7 +541,7 @@ def check_C06(ctx, prop="C06"):
         for v in c["_envs"]:
             if v:
                 strs.add(v)
-                strs.update(p.strip(" \t\n\v\f\r") for p in v.split(","))
+                strs.update(core.go_trim_space(p) for p in v.split(","))
     tbl = core.oracle(strs)
     k1 = 0
     for c in cases:
@@ -681,7 +684,7 @@ def check_C13(ctx):
     res = correspond(ctx, cases, ["outcome", "trace", "values"], "tokens x kinds x opt/arg x route")
     strs = set(toks)
     for t in toks:
-        strs.update(p.strip(" \t\n\v\f\r") for p in t.split(","))
+        strs.update(core.go_trim_space(p) for p in t.split(","))
     for k in KINDS:
         strs.update(DEFAULTS[k][0])
     tbl = core.oracle(strs)
